@@ -61,7 +61,7 @@ def _run_api(d, call, env):
     return common.in_pty(child, timeout=300)
 
 
-def cases(rng, n):
+def cases(rng, n, env_rate=0.3):
     out = []
     base = [
         {"cols": None, "rows": None}, {"cols": 3, "rows": None}, {"cols": None, "rows": 2}, {"cols": 4, "rows": 3},
@@ -69,6 +69,10 @@ def cases(rng, n):
         {"cols": None, "rows": None, "scale": 3.0, "max_cols": "5", "max_rows": "2"}, {"cols": 2, "rows": None, "force": True},
         {"cols": None, "rows": 5, "max_cols": "3"}, {"cols": 7, "rows": None, "max_rows": "2"}, {"cols": None, "rows": None, "max_cols": "auto", "max_rows": "auto"},
     ]
+    if env_rate > 0:
+        # settings from the environment layer that bite for the two test images (23x11 and 9x30 px on 8x16 cells)
+        base = [{"cols": None, "rows": None, "env": {"TUPIMAGE_MAX_COLS": "2"}}, {"cols": None, "rows": None, "two": True, "env": {"TUPIMAGE_MAX_ROWS": "1"}},
+                {"cols": None, "rows": None, "env": {"TUPIMAGE_SCALE": "0.5"}}, {"cols": None, "rows": 2, "env": {"TUPIMAGE_MAX_COLS": "2"}}] + base
     for b in base:
         out.append(dict(b))
     while len(out) < n:
@@ -85,16 +89,23 @@ def cases(rng, n):
             c["two"] = True
         if rng.random() < 0.25:
             c["ulf"] = rng.choice(["yes", "no"])
+        # a setting that comes from the ENVIRONMENT layer (both runs see the same variables) and is not given on the command line:
+        # the command line must not override it with a default of its own
+        if rng.random() < env_rate:
+            name, val, key = rng.choice([("TUPIMAGE_MAX_COLS", "2", "max_cols"), ("TUPIMAGE_MAX_ROWS", "1", "max_rows"), ("TUPIMAGE_SCALE", "0.5", "scale"),
+                                         ("TUPIMAGE_MAX_COLS", "5", "max_cols"), ("TUPIMAGE_FEWER_DIACRITICS", "true", None), ("TUPIMAGE_BACKGROUND", "3", None)])
+            if key is None or c.get(key) is None:
+                c["env"] = {name: val}
         out.append(c)
     return out
 
 
-def cli_equivalence(ctx, cov, n):
+def cli_equivalence(ctx, cov, n, env_rate=0.3):
     from PIL import Image
     rng = _random.Random(ctx.rng.randrange(2**40))
     work = os.path.join(ctx.work, "cli-eq")
     os.makedirs(work, exist_ok=True)
-    for idx, c in enumerate(cases(rng, n)):
+    for idx, c in enumerate(cases(rng, n, env_rate)):
         runs = {}
         for who in ("cli", "api"):
             d = os.path.join(work, f"{idx}-{who}")
@@ -106,7 +117,7 @@ def cli_equivalence(ctx, cov, n):
                 im.save(os.path.join(d, name))
                 os.utime(os.path.join(d, name), ns=(1_700_000_000_000_000_000, 1_700_000_000_000_000_000))
             images = ["a.png"] + (["b.png"] if c.get("two") else [])
-            env = _sandbox_env(d)
+            env = _sandbox_env(d, c.get("env"))
             if who == "cli":
                 argv = ["display", "--out-display", "disp.out"]
                 for k, flag in (("cols", "--cols"), ("rows", "--rows"), ("max_cols", "--max-cols"), ("max_rows", "--max-rows"), ("scale", "--scale")):
@@ -165,6 +176,22 @@ RECONF_VALUES = {
     "stream_max_size": [2 * 1024 * 1024, 300],
 }
 # (only settings that TupimageTerminal exposes as assignable properties: checked in the child)
+# (file_max_size and redetect_terminal are assignable but left out: temporary-file names / a keyword the child fixes)
+# settings that are NOT assignable properties on the pinned tree; should a tree make one assignable, it is held to the same
+# standard (a live assignment must act like construction with the value)
+RECONF_OPTIONAL = {
+    "max_command_size": [4096, 300, 1024],
+    "force_placeholders": [False, True],
+}
+
+
+def _assignable(work, names):
+    common.scrub_process_env()
+    os.environ["HOME"] = work
+    os.environ["XDG_STATE_HOME"] = os.path.join(work, "state")
+    os.environ["XDG_CONFIG_HOME"] = os.path.join(work, "config")
+    import tupimage
+    return [k for k in names if isinstance(getattr(tupimage.TupimageTerminal, k, None), property)]
 
 
 def _reconf_child(work, cases):
@@ -222,6 +249,13 @@ def _reconf_child(work, cases):
                         t.get_max_upload_size(t.get_upload_method())
                     except Exception:  # noqa
                         pass
+                    # ... and a real request under the OLD settings (whatever the request path memoises is warm as well); the
+                    # id it assigned is given back, so that both terminals start from the same database
+                    try:
+                        w_ = t.assign_id(imgs[2], rows=1)
+                        t.id_manager.del_id(w_.id)
+                    except Exception:  # noqa
+                        pass
                     for k, v in c2.items():
                         if not isinstance(getattr(type(t), k, None), property):
                             raise RuntimeError(f"{k} is not an assignable property of TupimageTerminal")
@@ -261,18 +295,25 @@ def _reconf_child(work, cases):
 def reconfigure_equivalence(ctx, cov, n, must_change=None):
     """must_change: names of which one is re-assigned in every case (default: every setting in turn)"""
     rng = _random.Random(ctx.rng.randrange(2**40))
-    names = sorted(RECONF_VALUES)
-    turn = list(must_change) if must_change else names
+    work = ctx.work
+    ra = common.in_pty(lambda: _assignable(work, sorted(RECONF_OPTIONAL)), timeout=60)
+    extra = ra.get("ok", []) if isinstance(ra, dict) else []
+    values = dict(RECONF_VALUES)
+    values.update({k: RECONF_OPTIONAL[k] for k in extra})
+    names = sorted(values)
+    turn = [k for k in (list(must_change) if must_change else names) if k in values]
+    if not turn:
+        cov.bump("reconfigure/not-an-assignable-setting:" + ",".join(must_change or []))
+        return
     cases = []
     for i in range(n):
-        c1 = {k: rng.choice(RECONF_VALUES[k]) for k in names}
+        c1 = {k: rng.choice(values[k]) for k in names}
         changed = [turn[i % len(turn)]] + rng.sample(names, rng.randrange(0, 4))
         c2 = dict(c1)
         for k in changed:
-            others = [v for v in RECONF_VALUES[k] if v != c1[k]]
+            others = [v for v in values[k] if v != c1[k]]
             c2[k] = rng.choice(others)
         cases.append((c1, c2))
-    work = ctx.work
     r = common.in_pty(lambda: _reconf_child(work, cases), timeout=600)
     if "ok" not in r:
         ctx.corr_breaks.append({"what": "live-reconfiguration runs failed in the pty sandbox", "error": {k: v for k, v in r.items() if k != "tty"}})
